@@ -10,7 +10,7 @@ import time
 import vlib
 from vlib import ToolError, log
 
-NSEEDS = 22
+NSEEDS = 24
 
 
 def generate(tag, maxsteps, seeds, simulate=None):
@@ -190,7 +190,7 @@ def run(prop, tier):
                for s in states if s["steps"] == 0][:3]
     cov.update({"states": gst["distinct"] + tstates, "transitions": gst["states"] + consumed,
                 "traces_validated_against_impl": consumed, "samples": samples, "exhaustive": tier == "quick",
-                "rule": "all programs reachable from each of the 22 seeds by <= MaxSteps rewrites (TLC breadth first); observables "
+                "rule": "all programs reachable from each of the {NSEEDS} seeds by <= MaxSteps rewrites (TLC breadth first); observables "
                         "= validate vector (default + strict) over the seed's probes + common pool, hash256, hash"})
     vlib.write_evidence(prop, tier, cov, time.time() - t0, len(violations),
                         ["Rewrite.tla's rules are my transcription of 'meaning-preserving'; TLC checks each preserves BeffSem membership",
